@@ -14,7 +14,7 @@ BASE = dict(sync=False, ctx=("rec", "ov"), dag=True, orphans=True, shapes=("chai
 
 def strat_multi(tier):
     # flush bodies may fail: the items of a failed flush are complete (with the error), so their waiters can run before the next flush
-    return gen.programs(gen.Cfg(max_tasks=12 if tier == "quick" else 40, flush_faults=("raise",), catch_p=2, tools=("dd", "alru", "agen", "amap", "asorted", "amin", "amax", "afilter", "retry", "cwc"), **BASE))
+    return gen.programs(gen.Cfg(max_tasks=12 if tier == "quick" else 40, flush_faults=("raise",), catch_p=2, tools=("dd", "dd", "alru", "alru", "agen", "amap", "retry"), **BASE))
 
 
 def strat_single(tier):
